@@ -8,7 +8,7 @@ its bytes with receive-active framing, and a bit-stuffing violation is reported 
 phases/drift within ±0.25 % between the 48 MHz sampler and the line".
 
 Same model as `Props/C25Rx.lean` (`FsRx.step`, co-simulated against the real `RxPipeline` cycle by cycle), but the line
-is no longer sampled exactly four times per bit.  The line is a stream of *bit cells* `(symbol, samples)`: the `k`-th
+is no longer sampled exactly four times per bit.  The line is a stream of *bit cells* `(symbol, samples, first sample)`: the `k`-th
 line transition of a transmitter with bit period `T` samples falls at sample `⌊φ + k T⌋`, so every cell has 4 samples
 except that one in about `1 / |T - 4|` cells has 3 (`T < 4`) or 5 (`T > 4`).
 
@@ -20,6 +20,10 @@ this also covers bounded jitter of the cell boundaries by one sample).  ±0.25 %
 property requires (`DriftOk` allows a constant offset of up to ±3 %).  The other ingredient is bit stuffing: a line
 transition at least every seven cells (`runsOk 7`, from `no_seven_ones_on_wire`).
 
+**Skew** (`SkewOk`, decidable): at every J↔K transition, independently, the two lines may be seen switching in the same
+sample or one sample apart in either order -- the first sample of the new cell shows SE0 or SE1 (`Cell`'s third
+component); every other sample of a cell shows its symbol.
+
 Theorems (from any idle state, any sampling phase `k` against the receiver's idle bit clock, every byte list, every
 cell stream in the envelope):
 * `rx_pipeline_decodes_encode_drift` — the events written into the clock-domain crossing are `start`, the bytes in
@@ -28,7 +32,7 @@ cell stream in the envelope):
 * `stuff_error_detected_cycle_drift` — seven consecutive 1s latch the error, for every trackable cell stream
   (`trackable`, the exact condition of the proof; `trackable_of_drift`: implied by `runsOk L` and `driftOk (L + 1)`
   for any `L`, i.e. by a drift that is small against the longest run of the -- illegal -- packet).
-* `rx_drift_nominal` — with four samples in every cell the stimulus is the nominal-rate one of `Props/C25Rx.lean`.
+* `rx_drift_nominal` — with four clean samples in every cell the stimulus is the nominal-rate one of `Props/C25Rx.lean`.
 
 Proof: `Lemmas/C25RxDriftFront` (position `k` of the recovered bit clock against the cell boundaries as invariant, one
 finite lemma per cell over all symbols, positions and lengths, induction over the cells; the envelope keeps
@@ -48,58 +52,57 @@ theorem rep_J (n : Nat) : rep n .J = jn n := rfl
 /-- **lock under drift**: whatever the sampling phase `r` of the first K against the idle bit clock and whatever its
 length `n`, the first transition re-aligns `line_state_phase`; seven cycles into the packet the front end is in the
 tracking regime. -/
-theorem lockD : ∀ (r : Fin 4) (n : Fin 6) c e, c ≤ 6 → 3 ≤ n.val →
-    (run (idleSt c e) (jn r.val ++ (rep n.val .K ++ rep (7 - n.val) .J))).1 =
-      ⟨Gk false .K .J (7 - n.val), conc ⟨0, bsStep (bsStep c true) true, srInit, e⟩ true⟩ ∧
-    events (run (idleSt c e) (jn r.val ++ (rep n.val .K ++ rep (7 - n.val) .J))).2 = [] ∧
-    ∀ o ∈ (run (idleSt c e) (jn r.val ++ (rep n.val .K ++ rep (7 - n.val) .J))).2, seOf o = (false, e) := by
-  intro r n
-  apply forall_c_e
-  revert r n
-  decide +kernel
+theorem lockD (g0 g1 : Option Bool) : ∀ (r : Fin 4) (n : Fin 6) c e, c ≤ 6 → 3 ≤ n.val →
+    (run (idleSt c e) (jn r.val ++ (cellIn .K n.val g0 ++ cellIn .J (7 - n.val) g1))).1 =
+      ⟨Gk false .K .J (7 - n.val) g1, conc ⟨0, bsStep (bsStep c true) true, srInit, e⟩ true⟩ ∧
+    events (run (idleSt c e) (jn r.val ++ (cellIn .K n.val g0 ++ cellIn .J (7 - n.val) g1))).2 = [] ∧
+    ∀ o ∈ (run (idleSt c e) (jn r.val ++ (cellIn .K n.val g0 ++ cellIn .J (7 - n.val) g1))).2, seOf o = (false, e) := by
+  rcases g0 with _ | _ | _ <;> rcases g1 with _ | _ | _ <;>
+    (intro r n; apply forall_c_e; revert r n; decide +kernel)
 
 /-- the whole stream can be tracked, from the idle line on -/
-def trackable : List (Sym × Nat) → Bool
+def trackable : List Cell → Bool
   | [] => false
-  | (d, n) :: w => track 3 .J d n w
+  | (d, n, g) :: w => track 3 .J d n g w
 
 /-- **reception under drift, any sampling phase**: for a trackable cell stream `K J … J J` (the first cell `k` cycles
 after an idle state, three idle samples at the end) the back end is stepped through exactly the bits of the symbols
 but the last, and the front end is back in its idle state. -/
-theorem run_waveD (c : Nat) (e : Bool) (hc : c ≤ 6) (k : Nat) (n0 n1 : Nat) (W : List (Sym × Nat)) (ws : List Sym)
-    (hW : W.map (·.1) = ws ++ [.J, .J]) (ht : trackable ((.K, n0) :: (.J, n1) :: W) = true) :
+theorem run_waveD (c : Nat) (e : Bool) (hc : c ≤ 6) (k : Nat) (n0 n1 : Nat) (g0 g1 : Option Bool)
+    (W : List Cell) (ws : List Sym)
+    (hW : W.map (·.1) = ws ++ [.J, .J]) (ht : trackable ((.K, n0, g0) :: (.J, n1, g1) :: W) = true) :
     ∃ c0, c0 ≤ 6 ∧
-    (run (idleSt c e) (jn k ++ dwave ((.K, n0) :: (.J, n1) :: W) ++ jn 3)).1 =
+    (run (idleSt c e) (jn k ++ dwave ((.K, n0, g0) :: (.J, n1, g1) :: W) ++ jn 3)).1 =
       ⟨G true .J .J, conc (bitRun ⟨0, c0, srInit, e⟩ (symBits .J (.K :: .J :: (ws ++ [.J, .J]))).dropLast)
         (lastD true (symBits .J (.K :: .J :: (ws ++ [.J, .J]))).dropLast)⟩ ∧
-    events (run (idleSt c e) (jn k ++ dwave ((.K, n0) :: (.J, n1) :: W) ++ jn 3)).2 =
+    events (run (idleSt c e) (jn k ++ dwave ((.K, n0, g0) :: (.J, n1, g1) :: W) ++ jn 3)).2 =
       bitEvs ⟨0, c0, srInit, e⟩ (symBits .J (.K :: .J :: (ws ++ [.J, .J]))).dropLast ∧
     ∃ pre, (∀ p ∈ pre, p = (false, e)) ∧
-      errAfter false ((run (idleSt c e) (jn k ++ dwave ((.K, n0) :: (.J, n1) :: W) ++ jn 3)).2.map seOf) =
+      errAfter false ((run (idleSt c e) (jn k ++ dwave ((.K, n0, g0) :: (.J, n1, g1) :: W) ++ jn 3)).2.map seOf) =
         errAfter false (pre ++ bitSEs ⟨0, c0, srInit, e⟩ (symBits .J (.K :: .J :: (ws ++ [.J, .J]))).dropLast) := by
   -- the first cell
   simp only [trackable, track, Bool.and_eq_true] at ht
-  obtain ⟨hk0, ht1⟩ := ht
+  obtain ⟨⟨hk0, _⟩, ht1⟩ := ht
   obtain ⟨_, _, hn3, hn5, _, _, _⟩ := (okCell_iff 3 .J .K n0).mp hk0
   have hnk : nextK 3 .J .K n0 = 7 - n0 := by simp [nextK]
   rw [hnk] at ht1
   -- split the idle prefix into whole bit times and the sampling phase
   obtain ⟨⟨c1, hc1, q1⟩, q2, q3⟩ := idle_run (k / 4) c e hc
-  obtain ⟨l1, l2, l3⟩ := lockD ⟨k % 4, Nat.mod_lt _ (by omega)⟩ ⟨n0, by omega⟩ c1 e hc1 hn3
+  obtain ⟨l1, l2, l3⟩ := lockD g0 g1 ⟨k % 4, Nat.mod_lt _ (by omega)⟩ ⟨n0, by omega⟩ c1 e hc1 hn3
   simp only at l1 l2 l3
   refine ⟨bsStep (bsStep c1 true) true, bsStep_le _ _ (bsStep_le _ _ hc1), ?_⟩
-  have hin : jn k ++ dwave ((.K, n0) :: (.J, n1) :: W) ++ jn 3 =
-      jn (4 * (k / 4)) ++ ((jn (k % 4) ++ (rep n0 .K ++ rep (7 - n0) .J)) ++ dblocks (7 - n0) .K .J n1 W) := by
+  have hin : jn k ++ dwave ((.K, n0, g0) :: (.J, n1, g1) :: W) ++ jn 3 =
+      jn (4 * (k / 4)) ++ ((jn (k % 4) ++ (cellIn .K n0 g0 ++ cellIn .J (7 - n0) g1)) ++ dblocks (7 - n0) .K .J n1 W) := by
     have hk : jn k = jn (4 * (k / 4)) ++ jn (k % 4) := by
       simp only [jn, List.replicate_append_replicate]; congr 1; omega
-    have hw := dwave_dblocks W (7 - n0) .K .J n1 ht1
-    have hd : dwave ((.K, n0) :: (.J, n1) :: W) = rep n0 .K ++ dwave ((.J, n1) :: W) := rfl
+    have hw := dwave_dblocks W (7 - n0) .K .J n1 g1 ht1
+    have hd : dwave ((.K, n0, g0) :: (.J, n1, g1) :: W) = cellIn .K n0 g0 ++ dwave ((.J, n1, g1) :: W) := rfl
     rw [hd, hk, ← rep_J 3]
     simp only [List.append_assoc]
     rw [← hw]
   rw [hin, run_append, q1, run_append, l1]
   -- the tracking part
-  obtain ⟨f1, f2⟩ := front_blocksD W false (7 - n0) .K .J n1 ht1
+  obtain ⟨f1, f2⟩ := front_blocksD W false (7 - n0) .K .J n1 g1 ht1
   obtain ⟨s1, s2⟩ := lastSym_JJ ws .K .J
   rw [hW, s1, s2] at f1
   have hbits : (dbits false (7 - n0) .K .J n1 W).map (·.2) =
@@ -107,7 +110,7 @@ theorem run_waveD (c : Nat) (e : Bool) (hc : c ≤ 6) (k : Nat) (n0 n1 : Nat) (W
     rw [dbits_bits, hW]
     simp [symBits, bitOf, dkOf, se0Of, List.dropLast]
   have hlens : ∀ p ∈ dbits false (7 - n0) .K .J n1 W, 3 ≤ p.1 :=
-    fun p hp => (dbits_lens W false (7 - n0) .K .J n1 ht1 p hp).1
+    fun p hp => (dbits_lens W false (7 - n0) .K .J n1 g1 ht1 p hp).1
   obtain ⟨b1, b2, b3⟩ := back_vblocks (dbits false (7 - n0) .K .J n1 W) hlens
     ⟨0, bsStep (bsStep c1 true) true, srInit, e⟩ true
   rw [hbits] at b1 b2
@@ -118,7 +121,7 @@ theorem run_waveD (c : Nat) (e : Bool) (hc : c ≤ 6) (k : Nat) (n0 n1 : Nat) (W
   · simp only [events_append, q2, l2, List.nil_append]
     exact b2
   · refine ⟨(run (idleSt c e) (jn (4 * (k / 4)))).2.map seOf ++ (run (idleSt c1 e)
-        (jn (k % 4) ++ (rep n0 .K ++ rep (7 - n0) .J))).2.map seOf, ?_, ?_⟩
+        (jn (k % 4) ++ (cellIn .K n0 g0 ++ cellIn .J (7 - n0) g1))).2.map seOf, ?_, ?_⟩
     · intro p hp
       rcases List.mem_append.mp hp with hp | hp
       · obtain ⟨o, ho, rfl⟩ := List.mem_map.mp hp; exact q3 o ho
@@ -129,21 +132,21 @@ theorem run_waveD (c : Nat) (e : Bool) (hc : c ≤ 6) (k : Nat) (n0 n1 : Nat) (W
 
 /-- the cell stream of a packet whose bit stream after SYNC is `bits`: `cells` carries SYNC, `bits` and the two SE0 of
 the EOP; `m + 3` idle bit times follow -/
-def packetCells (cells : List (Sym × Nat)) (m : Nat) : List (Sym × Nat) := cells ++ List.replicate (m + 3) (.J, 4)
+def packetCells (cells : List Cell) (m : Nat) : List Cell := cells ++ List.replicate (m + 3) (.J, 4, none)
 
 /-- drifting input: `k` idle samples, the cells of the packet, `m + 3` idle bit times and three more idle samples -/
-def rxInputD (k : Nat) (cells : List (Sym × Nat)) (m : Nat) : List In := jn k ++ dwave (packetCells cells m) ++ jn 3
+def rxInputD (k : Nat) (cells : List Cell) (m : Nat) : List In := jn k ++ dwave (packetCells cells m) ++ jn 3
 
 /-- **nominal rate is the special case** of four samples in every cell -/
 theorem rx_drift_nominal (k : Nat) (w : List Sym) (m : Nat) :
-    rxInputD k (w.map (·, 4)) m = rxInput k (w ++ [.J]) m := by
-  have : packetCells (w.map (·, 4)) m = (w ++ [Sym.J] ++ List.replicate (m + 2) Sym.J).map (·, 4) := by
+    rxInputD k (w.map (·, 4, none)) m = rxInput k (w ++ [.J]) m := by
+  have : packetCells (w.map (·, 4, none)) m = (w ++ [Sym.J] ++ List.replicate (m + 2) Sym.J).map (·, 4, none) := by
     simp only [packetCells, List.map_append, List.map_replicate, List.append_assoc, List.map, List.cons_append,
       List.nil_append, List.replicate_succ]
   simp only [rxInputD, rxInput, this, dwave_nominal]
 
 theorem run_packetD (c : Nat) (e : Bool) (hc : c ≤ 6) (k : Nat) (bits : List Bool) (m : Nat)
-    (cells : List (Sym × Nat))
+    (cells : List Cell)
     (hs : cells.map (·.1) = (nrzi true (syncBits ++ bits)).map lvl ++ [.SE0, .SE0])
     (ht : trackable (packetCells cells m) = true) :
     ∃ c0, c0 ≤ 6 ∧
@@ -171,12 +174,12 @@ theorem run_packetD (c : Nat) (e : Bool) (hc : c ≤ 6) (k : Nat) (bits : List B
     simp only [packetBits, fbits, List.map_append, List.append_assoc]
   rw [hshape] at hsyms
   match hpc : packetCells cells m, hsyms with
-  | (d0, n0) :: (d1, n1) :: W, hsyms =>
+  | (d0, n0, g0) :: (d1, n1, g1) :: W, hsyms =>
     simp only [List.map, List.cons.injEq] at hsyms
     obtain ⟨hd0, hd1, hW⟩ := hsyms
     subst hd0 hd1
     rw [hpc] at ht
-    obtain ⟨c0, h0, h1, h2, h3⟩ := run_waveD c e hc k n0 n1 W _ hW ht
+    obtain ⟨c0, h0, h1, h2, h3⟩ := run_waveD c e hc k n0 n1 g0 g1 W _ hW ht
     rw [← hshape, hbits] at h1 h2 h3
     simp only [rxInputD, hpc]
     refine ⟨c0, h0, ?_, h2, h3⟩
@@ -194,23 +197,31 @@ def DriftOk (lens : List Nat) : Prop := driftOk 8 8 lens = true
 
 instance (lens : List Nat) : Decidable (DriftOk lens) := by unfold DriftOk; infer_instance
 
-theorem track_idle (q : Nat) : track 3 .J .J 4 (List.replicate q (.J, 4)) = true := by
+/-- **skew envelope**: the first sample of a cell may show SE0 or SE1 instead of the symbol, at J↔K transitions only (the
+two lines switching one sample apart, in either order, independently at every transition) -/
+def SkewOk (cells : List Cell) : Prop := skewOk .J cells = true
+
+instance (cells : List Cell) : Decidable (SkewOk cells) := by unfold SkewOk; infer_instance
+
+theorem track_idle (q : Nat) : track 3 .J .J 4 none (List.replicate q (.J, 4, none)) = true := by
   induction q with
   | zero => decide
   | succ q ih =>
     have h1 : okCell 3 .J .J 4 = true := by decide
     have h2 : nextK 3 .J .J 4 = 3 := by decide
-    simp only [List.replicate_succ, track, h1, h2, ih, Bool.and_self]
+    have h3 : skewOk1 .J .J none = true := by decide
+    simp only [List.replicate_succ, track, h1, h2, h3, ih, Bool.and_self]
 
 /-- a stream ending in SE0 is tracked on over the J of the EOP and the idle line -/
 theorem track_tail (k' : Nat) (h2 : 2 ≤ k') (h4 : k' ≤ 4) (q : Nat) :
-    track k' .SE0 .J 4 (List.replicate q (.J, 4)) = true := by
+    track k' .SE0 .J 4 none (List.replicate q (.J, 4, none)) = true := by
   have h1 : okCell k' .SE0 .J 4 = true := by
     rw [okCell_iff]; simp [nextK]; omega
   have hn : nextK k' .SE0 .J 4 = 3 := by simp [nextK]
+  have h3 : skewOk1 .SE0 .J none = true := by decide
   cases q with
-  | zero => simp only [List.replicate, track, h1, hn, decide_true, Bool.and_self]
-  | succ q => simp only [List.replicate_succ, track, h1, hn, track_idle, Bool.and_self]
+  | zero => simp only [List.replicate, track, h1, hn, h3, decide_true, Bool.and_self]
+  | succ q => simp only [List.replicate_succ, track, h1, hn, h3, track_idle, Bool.and_self]
 
 /-- `FsCodec.runOK` with the bound as a parameter: at most `L - 1` consecutive 1s (`n` = current run) -/
 def runOKL (L : Nat) : Nat → List Bool → Bool
@@ -252,10 +263,10 @@ theorem runOKL_seven (bits : List Bool) : ∀ n, runOK n bits = true → runOKL 
 /-- **the envelope is trackable**: a packet whose NRZI bit stream has at most `L - 1` consecutive 1s (a line transition
 at least every `L` cells), cell lengths 3, 4, 5 with two cells of length ≠ 4 at least `M ≥ L + 1` cells apart. -/
 theorem trackable_of_drift (L M : Nat) (hL : 2 ≤ L) (hLM : L + 1 ≤ M) (bits : List Bool) (m : Nat)
-    (cells : List (Sym × Nat))
+    (cells : List Cell)
     (hs : cells.map (·.1) = (nrzi true (syncBits ++ bits)).map lvl ++ [.SE0, .SE0])
     (hr : runOKL L 0 (syncBits ++ bits) = true)
-    (hd : driftOk M M (cells.map (·.2)) = true) :
+    (hd : driftOk M M (cells.map (·.2.1)) = true) (hk : skewOk .J cells = true) :
     trackable (packetCells cells m) = true := by
   have hruns : runsOk L .J 1 (cells.map (·.1)) = true := by
     rw [hs]
@@ -272,20 +283,20 @@ theorem trackable_of_drift (L M : Nat) (hL : 2 ≤ L) (hLM : L + 1 ≤ M) (bits 
         ((nrzi true (syncBits ++ bits)).map lvl ++ [.SE0]) ++ [.SE0] by simp]
       exact endSym_concat _ _ _
     exact this
-  match cells, hruns, hd, hend with
-  | [], _, _, _ => simp [syncBits, nrzi] at hs
-  | (d, n) :: cells', hruns, hd, hend =>
+  match cells, hruns, hd, hk, hend with
+  | [], _, _, _, _ => simp [syncBits, nrzi] at hs
+  | (d, n, g) :: cells', hruns, hd, hk, hend =>
     simp only [packetCells, List.cons_append, trackable]
-    refine track_of_drift L M (by omega) hLM cells' 3 .J 1 M d n (List.replicate (m + 3) (.J, 4)) (by omega) (by omega)
-      (by omega) (fun h => absurd rfl h) hd hruns ?_
+    refine track_of_drift L M (by omega) hLM cells' 3 .J 1 M d n g (List.replicate (m + 3) (.J, 4, none)) (by omega)
+      (by omega) (by omega) (fun h => absurd rfl h) hd hruns hk ?_
     intro k' h2 h4
     have he := hend d (cells'.map (·.1)) rfl
     simp only [List.replicate_succ (n := m + 2), he]
     exact track_tail k' h2 h4 (m + 2)
 
 /-- the packets of `encode`: bit stuffing gives `L = 7` -/
-theorem trackable_encode (bytes : List Nat) (m : Nat) (cells : List (Sym × Nat))
-    (hs : cells.map (·.1) ++ [.J] = encode bytes) (hd : DriftOk (cells.map (·.2))) :
+theorem trackable_encode (bytes : List Nat) (m : Nat) (cells : List Cell)
+    (hs : cells.map (·.1) ++ [.J] = encode bytes) (hd : DriftOk (cells.map (·.2.1))) (hk : SkewOk cells) :
     trackable (packetCells cells m) = true ∧
     cells.map (·.1) = (nrzi true (syncBits ++ stuff 1 (bitsOf bytes))).map lvl ++ [.SE0, .SE0] := by
   have hs' : cells.map (·.1) = (nrzi true (syncBits ++ stuff 1 (bitsOf bytes))).map lvl ++ [.SE0, .SE0] := by
@@ -294,7 +305,7 @@ theorem trackable_encode (bytes : List Nat) (m : Nat) (cells : List (Sym × Nat)
     rw [this] at hs
     exact List.append_cancel_right hs
   exact ⟨trackable_of_drift 7 8 (by omega) (by omega) _ m cells hs'
-    (runOKL_seven _ 0 (no_seven_ones_on_wire bytes)) hd, hs'⟩
+    (runOKL_seven _ 0 (no_seven_ones_on_wire bytes)) hd hk, hs'⟩
 
 /-! ### the theorems of the property -/
 
@@ -328,20 +339,21 @@ theorem packetBits_good (bytes : List Nat) (hb : ∀ b ∈ bytes, b < 256) (c0 :
     · rw [i3 p hp]
   · simp only [packetBits, bitRun_append, s1, d1, e1, i1]
 
-/-- **the receive chain decodes `encode` under clock drift** (cycle level, any sampling phase, every drift pattern in
+/-- **the receive chain decodes `encode` under clock drift and skew** (cycle level, any sampling phase, every drift pattern in
 the envelope).  From an idle state, for every byte list and every stream of bit cells whose symbols are those of
 `encode bytes` (the final J merging with the idle line) and whose lengths satisfy `DriftOk` -- 3, 4 or 5 samples per
-cell, two cells of length ≠ 4 at least 8 cells apart --, starting after any number `k` of idle samples: the receive
+cell, two cells of length ≠ 4 at least 8 cells apart -- and whose first samples satisfy `SkewOk` -- SE0 or SE1 instead of
+the symbol at J↔K transitions only --, starting after any number `k` of idle samples: the receive
 chain writes into the clock-domain crossing exactly packet start, the bytes in order, each once, packet end; the latched
 receive error is low from the cycle after the start flag on; `4 (m + 3) + 3` idle cycles after the second SE0 the path
 is in an idle state again, error latch clear. -/
 theorem rx_pipeline_decodes_encode_drift (bytes : List Nat) (hb : ∀ b ∈ bytes, b < 256)
-    (cells : List (Sym × Nat)) (hs : cells.map (·.1) ++ [.J] = encode bytes) (hd : DriftOk (cells.map (·.2)))
-    (c : Nat) (e : Bool) (hc : c ≤ 6) (k m : Nat) :
+    (cells : List Cell) (hs : cells.map (·.1) ++ [.J] = encode bytes) (hd : DriftOk (cells.map (·.2.1)))
+    (hk : SkewOk cells) (c : Nat) (e : Bool) (hc : c ≤ 6) (k m : Nat) :
     events (run (idleSt c e) (rxInputD k cells m)).2 = [.start] ++ bytes.map Ev.byte ++ [.fin] ∧
     noErrorAfterStart (run (idleSt c e) (rxInputD k cells m)).2 ∧
     ∃ c', c' ≤ 6 ∧ (run (idleSt c e) (rxInputD k cells m)).1 = idleSt c' false := by
-  obtain ⟨ht, hs'⟩ := trackable_encode bytes m cells hs hd
+  obtain ⟨ht, hs'⟩ := trackable_encode bytes m cells hs hd hk
   obtain ⟨c0, h0, h1, h2, pre, h3, h4⟩ := run_packetD c e hc k (stuff 1 (bitsOf bytes)) m cells hs' ht
   obtain ⟨g1, g2, c', hc', g3⟩ := packetBits_good bytes hb c0 h0 e m
   refine ⟨?_, ?_, c', hc', ?_⟩
@@ -353,7 +365,7 @@ theorem rx_pipeline_decodes_encode_drift (bytes : List Nat) (hb : ∀ b ∈ byte
 /-- **a bit-stuffing violation latches the receive error under clock drift**: a packet whose bit stream after SYNC
 contains seven consecutive 1s anywhere (`pre`, `post` arbitrary), as any trackable cell stream -- packet start and
 packet end are written into the clock-domain crossing, and at the end of the run `o_receive_error` is set. -/
-theorem stuff_error_detected_cycle_drift (pre post : List Bool) (cells : List (Sym × Nat)) (m : Nat)
+theorem stuff_error_detected_cycle_drift (pre post : List Bool) (cells : List Cell) (m : Nat)
     (hs : cells.map (·.1) =
       (nrzi true (syncBits ++ (pre ++ List.replicate 7 true ++ post))).map lvl ++ [.SE0, .SE0])
     (ht : trackable (packetCells cells m) = true)
@@ -443,7 +455,8 @@ example : ¬ DriftOk [4, 3, 4, 4, 4, 4, 4, 4, 3, 4] := by decide
 /-! ### non-vacuity: runs of the model itself on drifting streams -/
 
 /-- cells of a packet: the symbols of `encode bytes` but the last, with the lengths `lens` -/
-def cellsOf (bytes : List Nat) (lens : List Nat) : List (Sym × Nat) := (encode bytes).dropLast.zip lens
+def cellsOf (bytes : List Nat) (lens : List Nat) : List Cell :=
+  ((encode bytes).dropLast.zip lens).map (fun p => (p.1, p.2, none))
 
 /-- `[0xA5]`, slow transmitter (cells 3 and 12 have five samples), sampling phase 2, from reset -/
 example : events (run {} (jn 15 ++ rxInputD 2 (cellsOf [0xA5] [4, 4, 4, 5, 4, 4, 4, 4, 4, 4, 4, 4, 5, 4, 4, 4, 4, 4]) 0)).2 =
@@ -451,7 +464,8 @@ example : events (run {} (jn 15 ++ rxInputD 2 (cellsOf [0xA5] [4, 4, 4, 5, 4, 4,
 
 /-- the hypotheses of `rx_pipeline_decodes_encode_drift` hold for that stream -/
 example : (cellsOf [0xA5] [4, 4, 4, 5, 4, 4, 4, 4, 4, 4, 4, 4, 5, 4, 4, 4, 4, 4]).map (·.1) ++ [.J] = encode [0xA5] ∧
-    DriftOk ((cellsOf [0xA5] [4, 4, 4, 5, 4, 4, 4, 4, 4, 4, 4, 4, 5, 4, 4, 4, 4, 4]).map (·.2)) := by decide
+    DriftOk ((cellsOf [0xA5] [4, 4, 4, 5, 4, 4, 4, 4, 4, 4, 4, 4, 5, 4, 4, 4, 4, 4]).map (·.2.1)) ∧
+    SkewOk (cellsOf [0xA5] [4, 4, 4, 5, 4, 4, 4, 4, 4, 4, 4, 4, 5, 4, 4, 4, 4, 4]) := by decide
 
 /-- `[0x0F, 0xFC]` (six 1s and a stuffed 0 at the end), fast transmitter: the FIRST cell (the K that the receiver locks
 on) and the last 1 of the run of six have three samples; stale error latch; phase 3 -/
@@ -467,12 +481,40 @@ example : events (run (idleSt 0 false) (rxInputD 0 (cellsOf [0xFF]
       [4, 4, 4, 4, 4, 4, 4, 4, 3, 4, 3, 4, 4, 4, 4, 4, 4, 4, 4]) 0)).2 ≠ [.start, .byte 0xFF, .fin] := by
   decide +kernel
 
+/-- cells of a packet with a seventh 1 -/
+def sevenCells : List Cell :=
+  (((nrzi true (syncBits ++ ([false] ++ List.replicate 7 true ++ [false]))).map lvl ++ [Sym.SE0, Sym.SE0]).zip
+    [4, 4, 5, 4, 4, 4, 4, 4, 4, 4, 4, 4, 4, 4, 4, 4, 4, 3, 4]).map (fun p => (p.1, p.2, none))
+
 /-- seven 1s under drift: the error is latched at the end; the stream is trackable -/
-example : trackable (packetCells (((nrzi true (syncBits ++ ([false] ++ List.replicate 7 true ++ [false]))).map lvl ++
-      [Sym.SE0, Sym.SE0]).zip [4, 4, 5, 4, 4, 4, 4, 4, 4, 4, 4, 4, 4, 4, 4, 4, 4, 3, 4]) 0) = true ∧
-    ((run (idleSt 0 false) (rxInputD 1 (((nrzi true (syncBits ++ ([false] ++ List.replicate 7 true ++ [false]))).map lvl ++
-      [Sym.SE0, Sym.SE0]).zip [4, 4, 5, 4, 4, 4, 4, 4, 4, 4, 4, 4, 4, 4, 4, 4, 4, 3, 4]) 0)).1).b.rxErr = true := by
+example : trackable (packetCells sevenCells 0) = true ∧
+    ((run (idleSt 0 false) (rxInputD 1 sevenCells 0)).1).b.rxErr = true := by
   decide +kernel
+
+/-- cells with skewed first samples: `sk` = what the first sample of each cell shows -/
+def skewCells (bytes : List Nat) (lens : List Nat) (sk : List (Option Bool)) : List Cell :=
+  (((encode bytes).dropLast.zip lens).zip sk).map (fun p => (p.1.1, p.1.2, p.2))
+
+/-- `[0xA5]` with drift AND skew: at the first transition of the packet (idle J to the K the receiver locks on) D+ is
+seen falling one sample before D- rises (SE0), at the next transitions SE1, SE0, SE1, …; no skew where the symbol does
+not change or at the EOP -/
+example : events (run (idleSt 3 false) (rxInputD 2 (skewCells [0xA5] [3, 4, 4, 5, 4, 4, 4, 4, 4, 4, 4, 4, 5, 4, 4, 4, 4, 4]
+      [some false, some true, some false, some true, some false, some true, some false, none,
+       none, some true, none, some false, some true, none, some false, none, none, none]) 0)).2 =
+      [.start, .byte 0xA5, .fin] ∧
+    SkewOk (skewCells [0xA5] [3, 4, 4, 5, 4, 4, 4, 4, 4, 4, 4, 4, 5, 4, 4, 4, 4, 4]
+      [some false, some true, some false, some true, some false, some true, some false, none,
+       none, some true, none, some false, some true, none, some false, none, none, none]) ∧
+    (skewCells [0xA5] [3, 4, 4, 5, 4, 4, 4, 4, 4, 4, 4, 4, 5, 4, 4, 4, 4, 4]
+      [some false, some true, some false, some true, some false, some true, some false, none,
+       none, some true, none, some false, some true, none, some false, none, none, none]).map (·.1) ++ [.J] =
+      encode [0xA5] := by
+  decide +kernel
+
+/-- a skewed sample where only one line switches (here: in the middle of a run) is outside the envelope -/
+example : ¬ SkewOk (skewCells [0xA5] [4, 4, 4, 4, 4, 4, 4, 4, 4, 4, 4, 4, 4, 4, 4, 4, 4, 4]
+    [none, none, none, none, none, none, none, some false, none, none, none, none, none, none, none, none, none, none]) := by
+  decide
 
 /-! ### any number of packets -/
 
@@ -480,13 +522,14 @@ example : trackable (packetCells (((nrzi true (syncBits ++ ([false] ++ List.repl
 (sampling phase) and `4 (m + 3) + 3` idle samples after it -/
 structure DPkt where
   bytes : List Nat
-  cells : List (Sym × Nat)
+  cells : List Cell
   k : Nat
   m : Nat
 
 /-- the environment hypotheses of `rx_pipeline_decodes_encode_drift` -/
 def DPkt.Ok (p : DPkt) : Prop :=
-  (∀ b ∈ p.bytes, b < 256) ∧ p.cells.map (·.1) ++ [.J] = encode p.bytes ∧ DriftOk (p.cells.map (·.2))
+  (∀ b ∈ p.bytes, b < 256) ∧ p.cells.map (·.1) ++ [.J] = encode p.bytes ∧ DriftOk (p.cells.map (·.2.1)) ∧
+    SkewOk p.cells
 
 def DPkt.input (p : DPkt) : List In := rxInputD p.k p.cells p.m
 def DPkt.events (p : DPkt) : List Ev := [.start] ++ p.bytes.map Ev.byte ++ [.fin]
@@ -500,14 +543,14 @@ theorem rx_packets_drift (ps : List DPkt) (h : ∀ p ∈ ps, p.Ok) : ∀ (c : Na
   | nil => intro c e hc; exact ⟨rfl, c, e, hc, rfl⟩
   | cons p ps ih =>
     intro c e hc
-    obtain ⟨hb, hs, hd⟩ := h p (by simp)
-    obtain ⟨h1, _, c1, hc1, h3⟩ := rx_pipeline_decodes_encode_drift p.bytes hb p.cells hs hd c e hc p.k p.m
+    obtain ⟨hb, hs, hd, hk⟩ := h p (by simp)
+    obtain ⟨h1, _, c1, hc1, h3⟩ := rx_pipeline_decodes_encode_drift p.bytes hb p.cells hs hd hk c e hc p.k p.m
     obtain ⟨i1, c2, e2, hc2, i2⟩ := ih (fun q hq => h q (by simp [hq])) c1 false hc1
     simp only [List.flatMap_cons, run_append, events_append, DPkt.input, DPkt.events] at *
     rw [h3]
     exact ⟨by rw [h1, i1], c2, e2, hc2, i2⟩
 
 example : (⟨[0xA5], cellsOf [0xA5] [4, 4, 4, 5, 4, 4, 4, 4, 4, 4, 4, 4, 5, 4, 4, 4, 4, 4], 2, 0⟩ : DPkt).Ok := by
-  refine ⟨by decide, by decide, by decide⟩
+  refine ⟨by decide, by decide, by decide, by decide⟩
 
 end LunaVerif.FsRx
